@@ -755,7 +755,8 @@ fn scenario(cx: &mut Ctx, l: &str) {
     let Some(base) = cx.base(&key) else { return };
     match (t[8], t.len()) {
         ("honest", _) => {}
-        ("flip", 10) => { let ps: Vec<usize> = parse_positions(t[9]).into_iter().filter(|p| *p < key.variant().msg_len() * 8).collect(); flips(cx, &base, "bitflip", &ps, t[9]); }
+        ("flip", 10) => { let ps: Vec<usize> = parse_positions(t[9]).into_iter().filter(|p| *p < key.variant().msg_len() * 8).collect();
+            if !ps.is_empty() { let items: Vec<String> = ps.iter().map(|p| format!("{p:x}")).collect(); flips(cx, &base, "bitflip", &ps, &items.join(",")); } }
         ("mut", 11) => { if let (Some((m, op)), pseed) = (t[10].parse().ok().and_then(|p| mutation(&base, t[9], p)), t[10]) { altered(cx, &base, "field-mutation", &format!("{} mut {} {}", key.line(), t[9], pseed), t[9], &m, op); } }
         ("splice", 11) => splice(cx, &base, t[9], t[10]),
         ("adv", 10) => { if let Some(d) = parse_devs(t[9]) { adversaries(cx, &base, &[("replay".into(), d)]); } }
@@ -873,6 +874,36 @@ fn run_c02(o: &Opts, cx: &mut Ctx) {
             }
         }
     }
+    // ---- error paths of the senders (correspondence; a bad round-one message must not produce shares)
+    {
+        let key = key_of(Variant::Ext, "syn", gen_sid(&mut rng, 4), &[rand_scalar(&mut rng), rand_scalar(&mut rng)], rng.next_u64() >> 1, 0);
+        cx.cache.clear();
+        if let Some(base) = cx.base(&key) {
+            let sd = base.seeds.as_ref().unwrap();
+            let mut r1 = base.r1.clone(); let p = rng.gen_range(0..r1.len() * 8); flip(&mut r1, p);
+            let line = format!("{} honest", key.line());
+            let idx = cx.rep.case("round-one-error", Some(&format!("{} r1flip {p:x}", key.line())));
+            let got = ext_send(&key.sid, &sd.r, &base.a, &r1, &base.tape_s);
+            let imp = match &got { None => "panic".to_string(), Some(Err(())) => "ban".into(), Some(Ok((c, m, u))) => format!("ok:{}:{}:{}", sc2(c), hex::encode(m), u) };
+            let model = cx.ask(&format!("rvole send {} {} {} {},{} {} {}", hex::encode(key.sid), rc_hex(sd), dec_hex(sd), key.a[0], key.a[1], hex::encode(&r1), hex::encode(&base.tape_s)));
+            if imp != model { cx.diverge("round-one-error", idx, &line, "rvole:send-model", "Lean senderProcess and RVOLESender::process disagree on an altered round-one message", &imp, &model); }
+            if !matches!(got, Some(Err(()))) { cx.pred("round-one-error", idx, &line, "rvole:bad-round1-accepted", format!("RVOLESender::process accepts a round-one message with bit {p} flipped"), &clip(&imp), "Err"); }
+        }
+        for half in (if thorough { vec![0usize, 1] } else { vec![1usize] }) {
+            let key = key_of(Variant::Ot, "na", gen_sid(&mut rng, 5), &[rand_scalar(&mut rng), Scalar::ONE], rng.next_u64() >> 1, 0);
+            let (tape_r, tape_s) = tapes(Variant::Ot, key.seed, 0);
+            let Some((_, mut m1, _, _)) = ot_recv_new(&key.sid, &tape_r) else { continue };
+            let inst = rng.gen_range(0..LAMBDA_C); m1[half * OT_MSG + 66 * inst + 33 * rng.gen_range(0..2)] = 4;      // an invalid SEC1 tag
+            let line = format!("{} honest", key.line());
+            let idx = cx.rep.case("round-one-error", Some(&format!("{} m1tag {half} {inst}", key.line())));
+            let got = ot_send(&key.sid, &key.a(), &m1, &tape_s);
+            let imp = match &got { None => "panic".to_string(), Some((Ok(c), m, u)) => format!("ok:{}:{}:{}", sc2(c), hex::encode(m), u), Some((Err(e), m, u)) => format!("err:{}:{}:{}", e.replace(' ', "_"), hex::encode(m), u) };
+            let model = cx.ask(&format!("rvole otsend {} {},{} {} {}", hex::encode(key.sid), key.a[0], key.a[1], hex::encode(&m1), hex::encode(&tape_s)));
+            cx.rep.hist(&format!("round-one-error:ot-msg1-{}", if half == 0 { "a" } else { "b" }));
+            if imp != model { cx.diverge("round-one-error", idx, &line, "rvole:otsend-model", "Lean senderProcessOt and RVOLESender::process (base-OT variant) disagree on an undecodable RVOLEMsg1 (error, partially written buffer, tape)", &imp, &model); }
+            if !matches!(got, Some((Err(_), _, _))) { cx.pred("round-one-error", idx, &line, "rvole:bad-msg1-accepted", "the variant's sender accepts an RVOLEMsg1 with an undecodable point".into(), &clip(&imp), "Err"); }
+        }
+    }
     // ---- directed excluded point: beta = 0, alterations of eta
     {
         let key = key_of(Variant::Ext, "syn", gen_sid(&mut rng, 3), &[rand_scalar(&mut rng), Scalar::ONE], rng.next_u64() >> 1, 1);
@@ -884,7 +915,7 @@ fn run_c02(o: &Opts, cx: &mut Ctx) {
             if let Some((m, op)) = mutation(&base, "overwrite-random:eta", 9) { altered(cx, &base, "excluded-point", &format!("{} mut overwrite-random:eta 9", key.line()), "overwrite-random:eta", &m, op); }
         }
     }
-    let bases = (if thorough { 2 } else { 1 }) * o.scale as usize;
+    let bases = o.scale as usize;
     for round in 0..bases {
         for v in [Variant::Ext, Variant::Ot] {
             let t1 = std::time::Instant::now();
@@ -896,8 +927,8 @@ fn run_c02(o: &Opts, cx: &mut Ctx) {
             let off = v.core_off();
             // ---- single-bit flips
             let mut ps: Vec<usize> = vec![];
-            let (na, ne, nh, no) = match (v, thorough) { (Variant::Ext, false) => (120, E_BYTES * 8, H_BYTES * 8, 0), (Variant::Ext, true) => (2500, E_BYTES * 8, H_BYTES * 8, 0),
-                                                         (Variant::Ot, false) => (30, 32, 32, 24), (Variant::Ot, true) => (600, E_BYTES * 8, H_BYTES * 8, 500) };
+            let (na, ne, nh, no) = match (v, thorough) { (Variant::Ext, false) => (80, E_BYTES * 8, H_BYTES * 8, 0), (Variant::Ext, true) => (2000, E_BYTES * 8, H_BYTES * 8, 0),
+                                                         (Variant::Ot, false) => (20, 24, 24, 16), (Variant::Ot, true) => (500, E_BYTES * 8, H_BYTES * 8, 200) };
             for _ in 0..na { ps.push(off * 8 + rng.gen_range(0..A_BYTES * 8)); }
             for p in [0, 7, 255, 256, ROW * 8 - 1, A_BYTES * 8 - 1] { ps.push(off * 8 + p); }
             let mut e: Vec<usize> = (0..E_BYTES * 8).collect(); e.shuffle(&mut rng); for p in &e[..ne] { ps.push((off + A_BYTES) * 8 + p); }
